@@ -2,7 +2,7 @@
 Value.* findings are violations of C02 (value in the pool or in a fee share that nobody paid); Conf.* findings are
 differences between the code and the distribution rule of Fees.tla, which no listed property speaks about - they are
 counted and returned as notes."""
-import json, os
+import json, os, shutil, subprocess
 import subsys, vlib
 from ledger import vdrive, attribute
 
@@ -37,8 +37,33 @@ def violations(ctx, tf, fam):
     return conf
 
 
+def inductive(ctx):
+    """Unbounded integers: Apalache discharges Init => IndInv and IndInv /\\ Next => IndInv' for Fees_Ind.tla (conservation and
+    non-negativity of pool and shares for any balances, powers and minimal fee), and must fail with the shares rounded up."""
+    d = os.path.join(ctx.tmp, "apalache-fees")
+    os.makedirs(d, exist_ok=True)
+    shutil.copy(os.path.join(vlib.SPECS, "Fees_Ind.tla"), d)
+    res = {}
+    for name, args, want in [("step", ["--cinit=CInitOk", "--init=IndInit", "--length=1"], "NoError"),
+                             ("base", ["--cinit=CInitOk", "--init=Init", "--length=0"], "NoError"),
+                             ("step-with-ceilShares", ["--cinit=CInitDev", "--init=IndInit", "--length=1"], "Error")]:
+        try:
+            p = subprocess.run(["apalache-mc", "check"] + args + ["--inv=IndInv", "--out-dir=" + os.path.join(d, "out"), "Fees_Ind.tla"],
+                               cwd=d, capture_output=True, text=True, timeout=600)
+        except subprocess.TimeoutExpired:
+            raise vlib.ToolFailure("apalache timed out on Fees_Ind (%s)" % name)
+        out = [ln for ln in p.stdout.splitlines() if "The outcome is:" in ln]
+        got = out[0].split("The outcome is:")[1].split()[0] if out else "none"
+        if got != want:
+            raise vlib.ToolFailure("apalache on Fees_Ind (%s): outcome %s, expected %s\n%s" % (name, got, want, p.stdout[-1500:]))
+        res[name] = got
+    ctx.log("apalache Fees_Ind: %s" % res)
+    return res
+
+
 def run(ctx):
     ctx.sany("Fees", "Fees_Trace")
+    ind = inductive(ctx)
     states = trans = 0
     for name, consts in [("fees", C)] + ([] if ctx.quick() else [("fees-big", CBIG)]):
         r = ctx.tlc("Fees", "mc.cfg", name="mc-" + name, extra=["-coverage", "1"], cfg_text=vlib.cfg_text("FSpec", consts, INVS, PROPS))
@@ -98,7 +123,7 @@ def run(ctx):
     if not any(p == "Conf.DistributionByPower" and line == j + 1 for (p, line, t, h) in v) or any(p.startswith("Value.") and line == j + 1 for (p, line, t, h) in v):
         raise vlib.ToolFailure("self-test: a unit credited to the wrong stake address not reported as Conf.DistributionByPower only (got %s)" % v[:5])
     return dict(states=states, transitions=trans, histories=tot["scenarios"], blocks_recomputed=tot["blocks"], requests=tot["txs"], accepted=tot["accepted"],
-                blocks_by_case=seen, conformance_notes=conf,
+                blocks_by_case=seen, conformance_notes=conf, inductive_invariant_apalache=ind,
                 rule="every block of families %s: what reached the end-of-block routine (pool after + share increments) minus the pool before equals the fees charged by the accepted requests (gas used x price); shares are credited by floor(pool x power / total power) over the previous block's validator records when the pool exceeds the minimal fee; Value.* findings are violations of C02, Conf.* differences are notes" % ", ".join(FAMILIES))
 
 
